@@ -113,16 +113,19 @@ static int pending_deferred_callbacks(void)
 		if (!(evcb->evcb_flags & EVLIST_INIT) && evcb->evcb_closure == EV_CLOSURE_CB_SELF) n++;
 	return n;
 }
-/* fd table signature: which of the descriptors 0..127 are open (the harness never gets near 128;
- * a scan of /proc/self/fd per execution would dominate the run time) */
+/* fd table signature: which of the descriptors 0..FD_SCAN-1 are open.  The harness allocates lowest-first
+ * and never holds more than about 30 descriptors; a scan of /proc/self/fd, or of a larger range, per
+ * execution dominated the run time.  The baseline is taken once per process (every execution must end on it). */
+#define FD_SCAN 56
 static uint64_t fd_sig(int *count)
 {
 	uint64_t h = 0; int n = 0;
-	for (int fd = 0; fd < 128; fd++)
+	for (int fd = 0; fd < FD_SCAN; fd++)
 		if (fcntl(fd, F_GETFD) != -1) { h = mc_hash_u64(h + 0x9e37, (uint64_t)fd); n++; }
 	if (count) *count = n;
 	return h;
 }
+static uint64_t fd_baseline_sig; static int fd_baseline_known;
 static void idle(void) { if (base && !base_freed) event_base_loopbreak(base); }
 static void logcb(int sev, const char *m) { if (sev == EVENT_LOG_ERR && mc_replaying()) fprintf(stderr, "[libevent err] %s\n", m); }
 
@@ -287,6 +290,7 @@ static const struct world worlds[] = {
 };
 #define NWORLDS ((int)(sizeof worlds / sizeof worlds[0]))
 
+void c10_close_above_baseline(void);
 static void body(void)
 {
 	int D = mc_param("depth", 5), wi = mc_param("world", 0);
@@ -298,7 +302,9 @@ static void body(void)
 	base_freed = 0; in_base_free = 0; loops_run = 0; hist = 0x1234; n_deferred_at_base_free = 0;
 	vclock_reset(); vclock_idle_hook = idle;
 	locks_begin_execution();
-	live0 = mcx_alloc_live(); fd0 = fd_sig(NULL);
+	live0 = mcx_alloc_live();
+	if (!fd_baseline_known) { fd_baseline_sig = fd_sig(NULL); fd_baseline_known = 1; }
+	fd0 = fd_baseline_sig;
 	if (event_global_setup_locks_(1) < 0) { mc_fail("harness:global-locks", "event_global_setup_locks_ failed"); return; }
 	{
 		struct event_config *cfg = event_config_new();
@@ -351,7 +357,8 @@ static void body(void)
 		}
 		{ int nfd; if (fd_sig(&nfd) != fd0)
 			mc_fail(n_deferred ? "C10/leak/fd/deferred-callback-queued-at-base-free" : "C10/leak/fd/nothing-queued-at-base-free",
-			    "fd table differs from the baseline (%d descriptors open below 128)", nfd); }
+			    "fd table differs from the baseline (%d descriptors open below %d)", nfd, FD_SCAN);
+		  if (fd_sig(NULL) != fd0) c10_close_above_baseline(); }
 		if (locks_live() != 0 || locks_conds_live() != 0)
 			mc_fail(n_deferred ? "C10/leak/locks/deferred-callback-queued-at-base-free" : "C10/leak/locks/nothing-queued-at-base-free",
 			    "%d lock(s) and %d condition(s) still allocated", locks_live(), locks_conds_live());
@@ -359,7 +366,6 @@ static void body(void)
 	} else {
 		MC_COUNT("nofinalize_teardowns");
 		/* hygiene for the next execution only */
-		extern void c10_close_above_baseline(void);
 		c10_close_above_baseline();
 	}
 }
